@@ -35,6 +35,19 @@ fn serialize<Output: BinaryOutput>(&self, context: &mut SerializationContext<Out
 }
 """
 
+LEMMA_TMPL = """// C09 for records with evolution headers: the reader decodes the header BEFORE the fields, so the
+// header's deduplicated names must be encoded against the string table as it was before the
+// fields.  The writer builds the header at finish(), after the fields (known finding D12).
+//#fn id=catalogue::%(X)s::lemma_header_table_order tags=C09 mode=lemma
+pub proof fn lemma_header_table_order_%(X)s(v: &%(X)s, t: Tbl)
+    requires
+        v.ser_ok(t),
+    ensures
+        v.header(t) == enc_hdr(%(X)s::evos(), seq_lens(v.chunks(t)), %(X)s::positions(), %(X)s::removed_names(), t, %(k)d),
+{
+}
+"""
+
 DE_TMPL = """impl %(X)s {
 //#fn id=catalogue::%(X)s::deserialize tags=C02,C05 mode=body
 #[verifier::rlimit(100)]
@@ -156,5 +169,6 @@ def gen_struct_evolved(d, expanded, H):
     db = H['norm_paths'](H['impl_fn'](expanded, 'BinaryDeserializer', X))
     db = db.replace('{', '{\n        broadcast use {lemma_rf_any, lemma_rof_any};\n        proof { reveal_strlits(); }', 1)
     out.append(DE_TMPL % dict(X=X, body=db))
+    out.append(LEMMA_TMPL % dict(X=X, k=k))
     lits = set(f['name'] for f in d['fields']) | set(n for _, n in steps if n)
     return '\n'.join(out), sorted(lits)
